@@ -184,6 +184,7 @@ fn case(tier: Tier, rng: &mut Rng, rep: &mut Report) {
     spec.gzip = rng.chance(0.2);
     spec.geom_repeat = rng.chance(0.4);
     spec.geom_single = rng.chance(0.3);
+    spec.crlf = rng.fork(0xC2F).chance(0.3);
     spec.geom_reversed = rng.chance(0.3);
     spec.uuid_blanks = rng.chance(0.3);
     let app_route_fmt = rng.below(5);
@@ -208,7 +209,7 @@ fn case(tier: Tier, rng: &mut Rng, rep: &mut Report) {
         }
     };
     let geom_file = built.dir.join(format!("geometries.txt{}", if spec.gzip { ".gz" } else { "" }));
-    let uuid_file = built.dir.join("uuids.txt");
+    let uuid_file = built.dir.join(format!("uuids.txt{}", if spec.gzip { ".gz" } else { "" }));
     let stored_rows = net.ne() - spec.geom_truncate;
     for _ in 0..4 {
         let o = rng.below(net.nv());
